@@ -81,6 +81,7 @@ type mergePart struct {
 }
 
 type LoopInfo struct {
+	NonFresh map[string]bool // keys modified in the loop on objects that may pre-date the loop
 	Header  *ssa.BasicBlock
 	Blocks  map[*ssa.BasicBlock]bool
 	Ordinal int
@@ -133,6 +134,8 @@ type FnVC struct {
 	litAfter map[ssa.Instruction][]*ssa.Alloc
 	litOrd map[*ssa.Alloc]int
 	LitProp string
+	lemmaName string
+	provingLemma *Axiom
 }
 
 type recApp struct {
@@ -199,7 +202,12 @@ func (v *FnVC) oblige(kind, form, text string, pos token.Pos) *Oblig {
 	return o
 }
 
-func (v *FnVC) fnName() string { return v.W.FuncDisplayName(v.Fn) }
+func (v *FnVC) fnName() string {
+	if v.Fn == nil {
+		return v.lemmaName
+	}
+	return v.W.FuncDisplayName(v.Fn)
+}
 
 // ---------- heap ----------
 
@@ -576,7 +584,7 @@ func (v *FnVC) store(st *State, l *Loc, val Term) {
 // ---------- well-formedness of values of a type ----------
 
 func (v *FnVC) wf(t Term, depth int) string {
-	if t.T == nil {
+	if t.T == nil || strings.HasPrefix(t.Sort, "(Array ") {
 		return "true"
 	}
 	switch u := t.T.Underlying().(type) {
@@ -865,17 +873,25 @@ func (v *FnVC) order() []*ssa.BasicBlock {
 // loopModKeys computes heap keys possibly modified in a loop; all=true means everything.
 func (v *FnVC) loopModKeys(li *LoopInfo) (keys map[string]bool, all bool) {
 	keys = map[string]bool{}
+	li.NonFresh = map[string]bool{}
 	for b := range li.Blocks {
 		for _, ins := range b.Instrs {
 			switch i := ins.(type) {
 			case *ssa.Store:
+				fresh := v.rootAllocatedIn(i.Addr, li)
 				for _, k := range v.storeKeys(i.Addr) {
 					keys[k] = true
+					if !fresh {
+						li.NonFresh[k] = true
+					}
 				}
 			case *ssa.MapUpdate:
 				if m, ok := i.Map.Type().Underlying().(*types.Map); ok {
 					d, vl, l := v.mapKeys(m)
 					keys[d], keys[vl], keys[l] = true, true, true
+					if mk, isMk := i.Map.(*ssa.MakeMap); !isMk || !li.Blocks[mk.Block()] {
+						li.NonFresh[d], li.NonFresh[vl], li.NonFresh[l] = true, true, true
+					}
 				}
 			case *ssa.Next:
 				if k, ok := v.iterKeys[i.Iter]; ok {
@@ -896,8 +912,15 @@ func (v *FnVC) loopModKeys(li *LoopInfo) (keys map[string]bool, all bool) {
 				if a {
 					return nil, true
 				}
+				isAppend := false
+				if bi, ok := i.Common().Value.(*ssa.Builtin); ok && bi.Name() == "append" {
+					isAppend = true
+				}
 				for _, k := range ks {
 					keys[k] = true
+					if !isAppend {
+						li.NonFresh[k] = true
+					}
 				}
 			}
 		}
@@ -907,6 +930,29 @@ func (v *FnVC) loopModKeys(li *LoopInfo) (keys map[string]bool, all bool) {
 
 func (v *FnVC) localKey(a *ssa.Alloc) string {
 	return v.regKey("L:"+a.Name(), v.S.SortOf(deref(a.Type())))
+}
+
+// rootAllocatedIn: the object written through addr is allocated inside the loop.
+func (v *FnVC) rootAllocatedIn(addr ssa.Value, li *LoopInfo) bool {
+	for {
+		switch a := addr.(type) {
+		case *ssa.FieldAddr:
+			addr = a.X
+			continue
+		case *ssa.IndexAddr:
+			if _, ok := a.X.Type().Underlying().(*types.Slice); ok {
+				if mk, ok := a.X.(*ssa.MakeSlice); ok {
+					return li.Blocks[mk.Block()]
+				}
+				return false
+			}
+			addr = a.X
+			continue
+		case *ssa.Alloc:
+			return li.Blocks[a.Block()]
+		}
+		return false
+	}
 }
 
 // storeKeys: heap keys a store through addr may change.
@@ -1184,7 +1230,13 @@ func (v *FnVC) loopHeader(b *ssa.BasicBlock, li *LoopInfo, entryPreds []*ssa.Bas
 		}
 		sort.Strings(ks)
 		for _, k := range ks {
+			pre := v.heapGet(v.cur, k)
 			v.havocKey(v.cur, k)
+			// keys that the loop only changes on objects it allocates itself keep their contents for all older objects
+			if !li.NonFresh[k] && strings.HasPrefix(v.heapSorts[k], "(Array Int ") && !strings.HasPrefix(k, "L:") && !strings.HasPrefix(k, "IT:") {
+				nw := v.cur.heap[k]
+				v.asserts = append(v.asserts, fmt.Sprintf("(forall ((a Int)) (! (=> (< a %s) (= (select %s a) (select %s a))) :pattern ((select %s a))))", v.cur.alloc, nw, pre, nw))
+			}
 		}
 		// allocation counter grows
 		na := v.freshConst("alloc", "Int")
@@ -1194,6 +1246,7 @@ func (v *FnVC) loopHeader(b *ssa.BasicBlock, li *LoopInfo, entryPreds []*ssa.Bas
 	for _, phi := range phis {
 		t := v.havocVal(phi.Name()+"_"+phi.Comment, phi.Type())
 		v.vals[phi] = t
+		v.assumeFreshBound(t, v.cur)
 		if phi.Comment == "rangeindex" {
 			// Go's lowering of range-over-slice: the index starts at -1, is incremented and compared with the length
 			// taken before the loop; -1 <= index < len is an invariant of that lowering
